@@ -84,3 +84,21 @@ func init() {
 		Rules:       []ruleFn{ruleR10_1, ruleR10_2, ruleR10_3, ruleR10_4, ruleR04_6},
 	})
 }
+
+func init() {
+	register(&propertySpec{
+		ID: "C11", NeedsServer: true,
+		Explanation: "decides the provenance of what the server stores as snapshot and as user-visible document (state and version come from one and the same rebuild), the rebuild range (latest snapshot by descending version, operations from its version + 1 in log order, returned version = last replayed sequence), that the visible document records its version, and that the snapshot update is a proper critical section. NOT decided: equality of the stored state with the log replay; monotonicity of the recorded version under racing updaters (rests on the lock actually excluding).",
+		Assumptions: []string{"the lock excludes (C12)", "restore is faithful (C10)"},
+		Rules:       []ruleFn{ruleR11_1, ruleR11_2, ruleR11_3, ruleR11_4, ruleR10_4, ruleR05_4, ruleR04_6},
+	})
+}
+
+func init() {
+	register(&propertySpec{
+		ID: "C12", NeedsServer: true,
+		Explanation: "decides the lock discipline of the server: every TryLock result guards its section, the lock is released on every exit including the panic path, a request context never outlives its request through the process-wide lock map, one mutex per lock name is created atomically, lock names are injective over (collection number, key), and each handler sends exactly one reply so that the fan-in returns. NOT decided: data-race freedom of the server as a whole and equivalence to a serial order (no pointer analysis is available; only the lock discipline is decided).",
+		Assumptions: []string{"golock.CASMutex and redsync provide mutual exclusion"},
+		Rules:       []ruleFn{ruleR12_1, ruleR12_2, ruleR12_3, ruleR12_4, ruleR16_1, ruleR16_2, ruleR11_4},
+	})
+}
